@@ -252,6 +252,12 @@ func (v *Verifier) external(st *State, in *ssa.Call, fn *ssa.Function, args []*T
 		}
 		r := App("is_space", SBool, args[0])
 		return set(r)
+	case "math.Floor":
+		return set(mk("to_real", SReal, mk("to_int", SInt, args[0])))
+	case "math.Ceil":
+		return set(mk("-", SReal, mk("to_real", SReal, mk("to_int", SInt, mk("-", SReal, args[0])))))
+	case "math.Trunc":
+		return set(mk("to_real", SReal, Ite(mk("<=", SBool, RealLit("0"), args[0]), mk("to_int", SInt, args[0]), Neg(mk("to_int", SInt, mk("-", SReal, args[0]))))))
 	case "math.Round":
 		return set(mk("to_real", SReal, App("round_half_away", SInt, args[0])))
 	case "regexp.MustCompile":
